@@ -37,6 +37,7 @@ def build(tier="quick", seed=0):
     notification(b)
     cascade(b)
     orbit_derivatives(b)
+    global_collapse(b)
     b.replayer("*::ensures:love_numbers_current*", _replay_fixed_q)
     b.replayer("*::invariant:compliance_is_reciprocal_shear*", _replay_strength)
     b.replayer("*::ensures:orbit_is_told*", _replay_strength)
@@ -551,6 +552,63 @@ def orbit_derivatives(b):
         stored = sp.And(sp.Eq(sp.sympify(A[slot]), da), sp.Eq(sp.sympify(E[slot]), de), sp.Eq(sp.sympify(N[slot]), -sp.Rational(3, 2) * (n_[slot] / a_[slot]) * da)) if all(x_ is not None for x_ in (A[slot], E[slot], N[slot])) else sp.false
         b.add(Obligation(oid=f"{mfn.key}::ensures:derivatives_current[{label}]", fn=mfn.key, clause="ensures the slot stores the returned da/dt, de/dt and dn/dt == -(3/2)(n/a) da/dt; other slots untouched",
                          goal=sp.And(stored, *[sp.Eq(sp.sympify(X[j]), sp.Symbol(f"{q}_old{j}", real=True)) for X, q in ((A, "da"), (E, "de"), (N, "dn")) for j in (0, 2)]), hyps=[sp.Gt(a_[slot], 0)] + paths[0].hyps))
+
+
+def global_collapse(b):
+    """GlobalApproxTides.collapse_modes (the CPL / CTL world's last link): the mode collapse is evaluated at the world's CURRENT (g, R, rho, scale), the host's
+    current mass, the current susceptibility, Love numbers and tidal terms; its outputs are stored under their own names; and the world is told AFTER the
+    store (the orbit then reads the new dU/dM, dU/dw)."""
+    FG = "TidalPy/tides/methods/global_approx.py"
+    try:
+        base = ClassModel("TidesBase", FT)
+        cls = ClassModel("GlobalApproxTides", FG, bases=[base])
+    except ExtractError as e:
+        b.subset_exits.append(str(e))
+        return
+    c, node = cls.lookup("methods", "collapse_modes")
+    if node is None:
+        b.subset_exits.append(f"{FG}::GlobalApproxTides.collapse_modes: method not found")
+        return
+    mfn = MethodFn(c, node)
+    b.functions[mfn.key] = mfn.info()
+    rec, seen = [], []
+    outs = tuple(R(f"collapse_out{i}") for i in range(7))
+    fields = ("_tidal_heating_global", "_dUdM", "_dUdw", "_dUdO", "_global_love_by_orderl", "_global_negative_imk_by_orderl", "_effective_q_by_orderl")
+
+    def collapse(ex, node_, *a_, **k_):
+        rec.append((tuple(a_), dict(k_)))
+        return outs
+    world = Obj(None, name="world", tidal_scale=R("w_scale"), density_bulk=R("w_rho"), gravity_surface=R("w_g"), radius=R("w_R"))
+    o = Obj(cls, world=world, _world=world, tidal_host=Obj(None, name="host", mass=R("host_mass")), _tidal_susceptibility=R("chi_now"), _tidal_terms_by_frequency=R("terms_now"), _use_ctl=False,
+            _cpl_complex_love_by_unique_freq=R("love_now"), _ctl_complex_love_by_unique_freq=R("love_ctl"), _max_tidal_order_lvl=sp.Integer(3), _collapse_modes_func=collapse, collapse_modes_func=collapse,
+            _radius=R("w_R"), radius=R("w_R"), _need_to_collapse_modes=True, **{f_: R("old" + f_) for f_ in fields})
+    world.setattr("dissipation_changed", lambda ex, node_, *a_, **k_: seen.append(tuple(o._attrs[f_] for f_ in fields)))
+    ex = Exec(mfn, globals_env={}, contracts={}, opts=dict(definedness=False))
+    try:
+        paths = ex.run({"self": o})
+    except SymExError as e:
+        b.subset_exits.append(f"{mfn.key}: {e}")
+        return
+    if len(paths) != 1 or paths[0].outcome != "return":
+        b.subset_exits.append(f"{mfn.key}: {[p_.outcome for p_ in paths]}")
+        return
+    want = (R("w_g"), R("w_R"), R("w_rho"), 1, R("w_scale"), R("host_mass"), R("chi_now"), R("love_now"), R("terms_now"), sp.Integer(3))
+    ok_args = False
+    if len(rec) == 1:
+        a_, k_ = rec[0]
+        names = ("gravity", "radius", "density", "shear_modulus", "tidal_scale", "tidal_host_mass", "tidal_susceptibility", "complex_compliance_by_frequency", "tidal_terms_by_frequency", "max_order_l")
+        bound = dict(zip(names, a_), **k_)
+        ok_args = all((bound.get(n_) is w_) or (bound.get(n_) == w_) for n_, w_ in zip(names, want)) and bound.get("cpl_ctl_method") is True
+    ground(b, f"{mfn.key}::ensures:collapse_arguments", mfn.key, "ensures the collapse function is called once with the world's current (g, R, rho), unit shear modulus, scale, host mass, susceptibility, Love numbers, tidal terms, l_max and cpl_ctl_method=True",
+           ok_args, detail=str(rec)[:400])
+    stored = all(o._attrs[f_] is outs[i] or o._attrs[f_] == outs[i] for i, f_ in enumerate(fields))
+    ground(b, f"{mfn.key}::ensures:outputs_stored", mfn.key, "ensures heating, dU/dM, dU/dw, dU/dO, Love numbers, -Im k and effective Q are stored under their own names", stored,
+           detail=str({f_: str(o._attrs[f_]) for f_ in fields})[:400])
+    told = len(seen) == 1 and all(x_ is y_ or x_ == y_ for x_, y_ in zip(seen[0], outs))
+    ground(b, f"{mfn.key}::ensures:world_told_after_store", mfn.key, "ensures world.dissipation_changed() is called once, after the new values are stored (what the orbit reads at that moment is current)", told,
+           detail=f"{len(seen)} call(s); values visible at the call: {[str(x_) for x_ in (seen[0] if seen else ())]}"[:400])
+    ret = paths[0].value
+    ground(b, f"{mfn.key}::ensures:returns_current", mfn.key, "ensures the method returns the stored heating and potential derivatives", isinstance(ret, tuple) and len(ret) == 4 and all(x_ is y_ or x_ == y_ for x_, y_ in zip(ret, outs[:4])), detail=str(ret)[:200])
 
 
 def layered_sums(b):
